@@ -197,7 +197,13 @@ func runLedger(c *hx.Ctx, n int) {
 			}
 			k.Signers = sg
 			rawBefore := l.world().raw()
-			ok, err := l.exec(&k)
+			var ok bool
+			var err error
+			if p, msg := hx.Recover(func() { ok, err = l.exec(&k) }); p {
+				seq.Calls = append(seq.Calls, k)
+				c.Fail("panic:block-execution", "a token transaction must not crash the block executor", seq, msg, "transaction result")
+				return
+			}
 			if err != nil {
 				c.Fail("ledger-exec", "block with the transaction could not be executed/added", k, err.Error(), nil)
 				return
@@ -245,5 +251,3 @@ func stateOfDump(d *dump) jState {
 	}
 	return st
 }
-
-func probes(c *hx.Ctx) {}
